@@ -35,7 +35,9 @@ HOME_PARAMS = [('p_int', INT), ('p_str', STR), ('p_bool', BOOL)]
 ENUMERATORS = ['Red', 'Green', 'Blue']
 ENUMERATORS2 = ['Blue', 'Happy', 'Red']        # shares names with Color on purpose
 CONSTS = [('C_INT', INT, '42'), ('C_STR', STR, 'hello'), ('C_BOOL', BOOL, 'true')]
-HOMES = ('function', 'bridge', 'operation', 'derived', 'state', 'transition')
+HOMES = ('function', 'bridge', 'operation', 'derived')
+# outside the quantified domain of C05/C06/C08 (explored by C06 without verdict): state machine actions
+EXTRA_HOMES = ('state', 'transition')
 EVENT = 'event'            # the type of a variable holding a created event instance (inst<Event>)
 # state machines: {(key letters, 'instance'|'class'): [(numb, meaning, [(data item, type)])]}
 EVENTS = {('A', 'instance'): [(1, 'go', [('x', INT), ('msg', STR)]), (2, 'halt', [('flag', BOOL)]),
@@ -121,7 +123,7 @@ def T(node, ty):
 
 
 class Gen(object):
-    def __init__(self, rng, home, features=None):
+    def __init__(self, rng, home, features=None, events=False):
         self.rng = rng
         self.home = home
         self.scopes = [dict()]      # name -> type: INT/STR/BOOL/REAL/ENUM, ('inst', K), ('set', K), ('array', t)
@@ -131,6 +133,7 @@ class Gen(object):
         self.has_params = home != 'derived'
         self.home_params = HOME_EVENT_DATA.get(home, HOME_PARAMS)
         self.features = features    # None: everything
+        self.events = events        # event statements (generate / create event instance)
         self.decl_block = {}        # variable name -> statement node that declares it (for C06)
         self.retired = []           # names whose block has ended: free to be declared again
 
@@ -371,7 +374,7 @@ class Gen(object):
         kinds = ['assign', 'assign', 'assign', 'attr', 'attr', 'create', 'create_nv', 'delete', 'relate', 'unrelate',
                  'select_from', 'select_from', 'select_related', 'select_related', 'invoke', 'invoke', 'array',
                  'return', 'stop']
-        if self.features is None or 'events' in self.features:
+        if self.events:
             kinds += ['generate', 'generate', 'create_event', 'generate_pre']
         if depth > 0:
             kinds += ['if', 'if', 'while', 'foreach', 'foreach']
